@@ -576,6 +576,7 @@ func (c *C02Sweep) Run() string {
 		}
 		sub := &C02Case{DT: "int16", Shape: c.Shape, L: c.L, Prog: []C02Step{{Op: "slice", Specs: specs, Via: c.Via}}}
 		resetLib()
+		rec.Eval()
 		if msg := sub.Run(); msg != "" && msg != inconclusive {
 			return msg
 		}
